@@ -3,12 +3,12 @@
 # Confirms in a scratch worktree of /repo HEAD: demo passes without the change; with it the
 # workspace builds, the component's existing tests pass, and the demo fails.
 d="$1"; crate="tower-resilience-$2"; itest="$3"
-WT=/tmp/mutconf
-export CARGO_TARGET_DIR=/tmp/mutconf_target
+WT=${MUTCONF_WT:-/tmp/mutconf}
+export CARGO_TARGET_DIR=${MUTCONF_TARGET:-/tmp/mutconf_target}
 if [ ! -d $WT ]; then git -C /repo worktree add -q --detach $WT HEAD || exit 2; fi
 cd $WT && git checkout -q --detach $(git -C /repo rev-parse HEAD) && git checkout -q -- . && git clean -fdq
 mkdir -p crates/$crate/tests && cp "$d/demo.rs" crates/$crate/tests/mutant_demo.rs
-r() { timeout 1800 "$@" >/tmp/mutconf.log 2>&1; echo $?; }
+r() { timeout 2400 "$@" >$WT.log 2>&1; echo $?; }
 a=$(r cargo test --offline -p $crate --test mutant_demo)
 git apply "$d/patch.diff" || { echo "RESULT $d patch-does-not-apply"; exit 1; }
 b=$(r cargo build --offline --workspace)
